@@ -196,3 +196,40 @@ Definition within (shape : option Z) (c : zfib) : bool :=
   end.
 
 Definition wf_afib (f : afib) : bool := wf_fib (af_shape f) (af_elems f).
+
+(* ------------------------------------------------------------------ chains (round 3): results of
+   + and * become operands of later operations on the same accumulator object/name.
+   Value-returning steps rebind the accumulator to the result, which _newFiber (fiber.py) builds
+   with the left operand's DECLARED shape (getRankAttrs().getShape(): None when none was declared —
+   never the estimate) and no active range; in-place steps keep the object. *)
+Inductive fstep :=
+| SAddF (c : afib) | SMulF (c : afib) | SAddS (k : Z) | SMulS (k : Z)          (* acc = acc op x *)
+| SIAddF (c : afib) | SIMulF (c : afib) | SIAddS (k : Z) | SIMulS (k : Z).     (* acc op= x *)
+
+Definition chain_step (acc : afib) (st : fstep) : afib :=
+  match st with
+  | SAddF c => st_add_fiber acc c
+  | SMulF c => st_mul_fiber acc c
+  | SAddS k => st_add_scalar acc k
+  | SMulS k => st_mul_scalar acc k
+  | SIAddF c => st_iadd_fiber acc c
+  | SIMulF c => st_imul_fiber acc c
+  | SIAddS k => st_iadd_scalar acc k
+  | SIMulS k => st_imul_scalar acc k
+  end.
+
+(* the accumulators after each step, in order *)
+Fixpoint chain_trace (acc : afib) (steps : list fstep) : list afib :=
+  match steps with
+  | [] => []
+  | st :: steps' => chain_step acc st :: chain_trace (chain_step acc st) steps'
+  end.
+
+Definition chain (acc : afib) (steps : list fstep) : afib := fold_left chain_step steps acc.
+
+(* a step's fiber operand is well-formed and lies inside the accumulator's declared shape *)
+Definition step_wf (sh : option Z) (st : fstep) : bool :=
+  match st with
+  | SAddF c | SMulF c | SIAddF c | SIMulF c => wf_afib c && within sh (af_elems c)
+  | _ => true
+  end.
